@@ -43,7 +43,7 @@ var cv = rsm2.Std
 
 func TestMain(m *testing.M) {
 	R.Require("cert/sm2/alg_default", "cert/rsa/alg_default", "cert/ecdsa/alg_default", "cert/sm2/SM2-SHA1", "cert/sm2/SM2-SHA256", "csr/sm2/alg_default", "csr/ecdsa/alg_default", "csr/rsa/alg_default",
-		"crl/sm2", "revlist/sm2/alg_default", "revlist/sm2/SM2-SHA256", "serial_negative", "extra_ext_override", "mutant_tbs_or_sig", "other_key", "sig_reencoded")
+		"crl/sm2", "revlist/sm2/alg_default", "revlist/sm2/SM2-SHA256", "serial_negative", "extra_ext_override", "mutant_tbs_or_sig", "other_key", "sig_reencoded", "mutant_value_level", "issued_under_parsed_ca", "ca_subject:multivalue_rdn", "ca_subject:extra_attr")
 	hx.Main(m, R)
 }
 
@@ -639,6 +639,26 @@ func mutate(t *rapid.T, der []byte, n int, origTBS, origSig []byte, kindTag stri
 			t.Fatalf("%s: after changing byte %d (%#x -> %#x) the object still parses AND verifies although TBS or signature differ\n orig %x\n mut  %x", kindTag, pos, b, nb, der, mut)
 		}
 	}
+	// value-level mutants: one TLV gets another (well-formed) value and every enclosing length is re-encoded
+	vm := gen.DERConsistent(der, 300)
+	for k := 0; k < 6 && len(vm) > 0; k++ {
+		m := vm[rapid.IntRange(0, len(vm)-1).Draw(t, "valuemutant")]
+		var tbs, sig []byte
+		var perr, serr error
+		if p := hx.Try(func() { tbs, sig, perr, serr = verify(m.Data) }); p != nil {
+			t.Fatalf("%s: parse/verify of a value-mutated object (%s) panicked: %v\n%s", kindTag, m.Note, p.Val, p.Stack)
+		}
+		switch {
+		case perr != nil:
+			R.Case(false, 0, "mutant_parse_error")
+		case serr != nil:
+			R.Case(true, hx.HashKey(kindTag, m.Data), "mutant_tbs_or_sig", "mutant_value_level")
+		case bytes.Equal(tbs, origTBS) && bytes.Equal(sig, origSig) && sameSignedParts(der, m.Data):
+			R.Case(false, 0, "mutant_outside_signed_region")
+		default:
+			t.Fatalf("%s: after a value-level change (%s) the object still parses AND verifies although TBS or signature differ\n orig %x\n mut  %x", kindTag, m.Note, der, m.Data)
+		}
+	}
 }
 
 func TestC09_Certificates(t *testing.T) {
@@ -969,4 +989,75 @@ func TestC09_Replay(t *testing.T) {
 		t.Fatalf("self-signed SM2 certificate with default algorithm fails its own signature check: %v", err)
 	}
 	R.Case(true, hx.HashKey("replay"), "replay")
+}
+
+// Issuing under a PARSED CA certificate (the normal way a CA is held): the issued certificate's issuer must be the CA's
+// subject byte for byte - also when that subject has attributes without a struct field, several values in one RDN, or
+// an encoding another tool chose - and the pair must chain.
+func TestC09_IssuedUnderParsedCA(t *testing.T) {
+	initKeys(t)
+	hx.Check(t, hx.N(150, 2500), func(t *rapid.T) {
+		ck := gen.KeyPair(hx.Root()).Draw(t, "cakey")
+		caPriv := sm2x.Priv(ck)
+		name := nameGen().Draw(t, "caname")
+		if len(name.ToRDNSequence()) == 0 {
+			name.CommonName = "ca"
+		}
+		shape := rapid.SampledFrom([]string{"library", "multivalue_rdn", "printable_vs_utf8", "extra_attr"}).Draw(t, "shape")
+		caTpl := &gx.Certificate{SerialNumber: big.NewInt(1), Subject: name, NotBefore: time.Unix(1600000000, 0), NotAfter: time.Unix(1900000000, 0),
+			BasicConstraintsValid: true, IsCA: true, KeyUsage: gx.KeyUsageCertSign, SignatureAlgorithm: gx.SM2WithSM3}
+		switch shape {
+		case "multivalue_rdn":
+			// SET with two attributes in one RDN: only expressible through the raw subject
+			rdn := pkix.RDNSequence{pkix.RelativeDistinguishedNameSET{{Type: oidCN, Value: "multi"}, {Type: asn1.ObjectIdentifier{2, 5, 4, 10}, Value: "org"}}}
+			raw, err := asn1.Marshal(rdn)
+			if err != nil {
+				t.Fatalf("marshal rdn: %v", err)
+			}
+			caTpl.RawSubject = raw
+		case "printable_vs_utf8":
+			// another tool's string type for the same text
+			raw, err := asn1.Marshal(pkix.RDNSequence{pkix.RelativeDistinguishedNameSET{{Type: oidCN, Value: asn1.RawValue{Tag: 12, Bytes: []byte("utf8 ca")}}}})
+			if err != nil {
+				t.Fatalf("marshal rdn: %v", err)
+			}
+			caTpl.RawSubject = raw
+		case "extra_attr":
+			caTpl.Subject.ExtraNames = []pkix.AttributeTypeAndValue{{Type: asn1.ObjectIdentifier{2, 5, 4, 42}, Value: "Given"}}
+		}
+		caDER, err := gx.CreateCertificate(caTpl, caTpl, &caPriv.PublicKey, caPriv)
+		if err != nil {
+			t.Fatalf("CreateCertificate(CA, shape %s): %v", shape, err)
+		}
+		ca, err := gx.ParseCertificate(caDER)
+		if err != nil {
+			t.Fatalf("ParseCertificate(CA): %v", err)
+		}
+		if !bytes.Equal(ca.RawIssuer, ca.RawSubject) {
+			t.Fatalf("self-signed CA (shape %s): issuer %x differs from subject %x", shape, ca.RawIssuer, ca.RawSubject)
+		}
+		lk := gen.OtherKey(t, hx.Root(), "leafkey", ck.D)
+		leafTpl := &gx.Certificate{SerialNumber: big.NewInt(2), Subject: pkix.Name{CommonName: "leaf"}, NotBefore: time.Unix(1600000000, 0), NotAfter: time.Unix(1900000000, 0),
+			KeyUsage: gx.KeyUsageDigitalSignature, DNSNames: []string{"leaf.example"}}
+		der, err := gx.CreateCertificate(leafTpl, ca, sm2x.Pub(lk.Pub), caPriv)
+		if err != nil {
+			t.Fatalf("CreateCertificate(leaf under parsed CA): %v", err)
+		}
+		leaf, err := gx.ParseCertificate(der)
+		if err != nil {
+			t.Fatalf("ParseCertificate(leaf): %v", err)
+		}
+		if !bytes.Equal(leaf.RawIssuer, ca.RawSubject) {
+			t.Fatalf("issued under a parsed CA (shape %s): issuer name of the new certificate differs from the CA's subject\n issuer  %x\n subject %x", shape, leaf.RawIssuer, ca.RawSubject)
+		}
+		if err := leaf.CheckSignatureFrom(ca); err != nil {
+			t.Fatalf("leaf does not verify under the CA that issued it: %v", err)
+		}
+		pool := gx.NewCertPool()
+		pool.AddCert(ca)
+		if _, err := leaf.Verify(gx.VerifyOptions{Roots: pool, CurrentTime: time.Unix(1700000000, 0), DNSName: "leaf.example"}); err != nil {
+			t.Fatalf("leaf issued under a parsed CA (shape %s) does not chain to it: %v", shape, err)
+		}
+		R.Case(true, hx.HashKey("parsedca", der), "issued_under_parsed_ca", "ca_subject:"+shape)
+	})
 }
